@@ -1,7 +1,7 @@
 (* C07 — normalised request paths cannot climb out of the root.  Property theorems only. *)
 From Coq Require Import String.
 From Coq Require Import List Strings.Byte NArith Bool.
-Require Import Bytes Show Tables Codec Norm Seg NormTop.
+Require Import Bytes Show Tables Codec Norm CleanPath Seg NormTop CleanPathProofs.
 Import ListNotations.
 
 (* `contained p` (Proofs/NormTop.v): p = "/" ++ g1 ++ "/" ++ g2 ... for slash-free segments
@@ -17,4 +17,17 @@ Print Assumptions C07_contained.
 Example C07_nonvacuous :
   normalize_path (B "/a/%2e%2e/../b//./c/..") = Some (B "/b/") /\
   normalize_path (B "%2e%2e/%2e%2e/etc/passwd") = Some (B "/etc/passwd").
+Proof. split; vm_compute; reflexivity. Qed.
+
+(* utils.CleanPath (route registration and redirect-fixed-path; compared with `clean_path` on the
+   enumerated space): for EVERY byte string the loop terminates within length+1 rounds and the
+   result is contained in the same sense (begins with '/', no '..' segment, no empty or '.'
+   segment except possibly the last). *)
+Theorem C07_clean_path_contained : forall p : bs,
+  exists q, clean_path p = Some q /\ contained q.
+Proof. exact clean_path_contained. Qed.
+Print Assumptions C07_clean_path_contained.
+
+Example C07_clean_nonvacuous :
+  clean_path (B "a/../../b/./c//") = Some (B "/b/c/") /\ clean_path (B "") = Some (B "/").
 Proof. split; vm_compute; reflexivity. Qed.
